@@ -473,12 +473,138 @@ impl Check for C03Pipeline {
     }
 }
 
+// ---------------------------------------------------------------- thousands of rows against the model
+
+/// The whole stage composition on thousands of rows derived from a seed, with plain field
+/// expressions: stability of the sort, first-seen order of group keys, first-occurrence
+/// --unique and the limits are decided by the model (not by a second run of jawk), at sizes
+/// where buffers, batches and hash tables have grown several times.
+#[derive(Clone, Debug, Serialize, Deserialize)]
+pub struct Case03L {
+    pub n: u32,
+    pub seed: u64,
+    pub keys: u8,
+    pub split: bool,
+    /// 0 none, 1 (< .k 2), 2 (= .gs "g1")
+    pub filter: u8,
+    /// 0 none, 1 [k g], 2 [i k], 3 [gs k g]
+    pub sel: u8,
+    pub unique: bool,
+    /// 0 none, 1 .k, 2 .k .g, 3 .g DESC .k
+    pub sorts: u8,
+    pub desc: bool,
+    pub skip: u64,
+    pub take: Option<u64>,
+    pub group: u8,
+    pub order_seed: u64,
+}
+
+impl Case03L {
+    pub fn expand(&self) -> Case03 {
+        let mut x = self.seed | 1;
+        let mut next = || {
+            x ^= x << 13;
+            x ^= x >> 7;
+            x ^= x << 17;
+            x
+        };
+        let kk = self.keys.max(1) as u64;
+        let mut inputs = Vec::with_capacity(self.n as usize);
+        for i in 0..self.n as u64 {
+            let h = next();
+            let rec = |id: u64, h: u64| {
+                let k = if (h >> 50) % 13 == 0 { String::new() } else { format!("\"k\":{},", h % kk) };
+                let g = (h >> 20) % 5;
+                format!("{{\"i\":{},{}\"g\":{},\"gs\":\"g{}\"", id, k, g, g)
+            };
+            if self.split {
+                let m = (h >> 60) % 4;
+                let xs: Vec<String> = (0..m).map(|j| format!("{}}}", rec(i * 10 + j, next()))).collect();
+                inputs.push(format!("{},\"xs\":[{}]}}", rec(i, h), xs.join(",")));
+            } else if self.unique && self.sel != 2 {
+                // repeating rows
+                inputs.push(format!("{}}}", rec(h % 7, h)));
+            } else {
+                inputs.push(format!("{}}}", rec(i, h)));
+            }
+        }
+        let key = |k: &str| Expr::key(0, k);
+        let pipe = EPipe {
+            sets: vec![],
+            split: if self.split { Some(key("xs")) } else { None },
+            filter: match self.filter {
+                1 => Some(Expr::call("<", vec![key("k"), Expr::lit("2")])),
+                2 => Some(Expr::call("=", vec![key("gs"), Expr::lit("\"g1\"")])),
+                _ => None,
+            },
+            selects: match self.sel {
+                1 => vec![(key("k"), "k".to_string()), (key("g"), "g".to_string())],
+                2 => vec![(key("i"), "i".to_string()), (key("k"), "k".to_string())],
+                3 => vec![(key("gs"), "gs".to_string()), (key("k"), "k".to_string()), (key("g"), "g".to_string())],
+                _ => vec![],
+            },
+        };
+        let sorts = match self.sorts {
+            1 => vec![(key("k"), self.desc)],
+            2 => vec![(key("k"), self.desc), (key("g"), false)],
+            3 => vec![(key("g"), true), (key("k"), self.desc)],
+            _ => vec![],
+        };
+        Case03 { pipe, only_objects: false, unique: self.unique, sorts, skip: self.skip, take: self.take, group: self.group, group_key: if self.group == 1 { Some(key("gs")) } else { None }, inputs, order_seed: self.order_seed, order_seed2: self.order_seed.rotate_left(17) }
+    }
+}
+
+pub struct C03Large;
+impl Check for C03Large {
+    type Case = Case03L;
+    fn name(&self) -> &'static str {
+        "C03.large"
+    }
+    fn cases(&self, tier: Tier) -> u64 {
+        tier.pick(400, 5_000)
+    }
+    fn strategy(&self, t: Tier) -> BoxedStrategy<Case03L> {
+        let max_n: u32 = t.pick(5_000, 12_000);
+        let n = prop_oneof![3 => 1_030u32..2_500, 1 => 2_500u32..max_n, 1 => 100u32..1_030];
+        (n, any::<u64>(), 1u8..6, prop::bool::weighted(0.2), 0u8..3, 0u8..4, prop::bool::weighted(0.3), 0u8..4, any::<bool>(), (0u8..8, any::<u16>()), (0u8..10, any::<u16>()), prop_oneof![3 => Just(0u8), 1 => Just(1u8), 1 => Just(2u8)])
+            .prop_map(|(n, seed, keys, split, filter, sel, unique, sorts, desc, (sk, sr), (tk, tr), group)| {
+                let frac = |r: u16, m: u32| ((r as u64 * (m as u64 + 1)) >> 16) as u64;
+                let skip = match sk {
+                    0..=3 => 0,
+                    4 => 1,
+                    5 => frac(sr, n),
+                    6 => 1000 + frac(sr, 50),
+                    _ => frac(sr, 30),
+                };
+                let take = match tk {
+                    0..=2 => None,
+                    3 => Some(0),
+                    4 => Some(1),
+                    5 => Some(10),
+                    6 => Some(1023 + frac(tr, 3)),
+                    7 => Some(frac(tr, n)),
+                    _ => Some(1 + frac(tr, 40)),
+                };
+                Case03L { n, seed, keys, split, filter, sel, unique, sorts, desc, skip, take, group, order_seed: seed.rotate_left(29) }
+            })
+            .boxed()
+    }
+    fn check(&self, c: &Case03L) -> CaseResult {
+        let big = c.expand();
+        match C03Pipeline.check(&big) {
+            CaseResult::Pass(info) => CaseResult::Pass(Info { nontrivial: info.nontrivial && c.n >= 1000, ..info }.class_if(c.n >= 1000, "thousand_rows_or_more")),
+            other => other,
+        }
+    }
+}
+
 pub fn run_all(ctx: &mut Ctx) {
-    ctx.rule = "option subsets over --set (variables, macros), --split-by, --filter, 0..3 --select (with /name/ back-references), --unique, 0..3 --sort-by with directions, --skip 0..3, --take absent|0..6, --group-by | --merge, --only-objects-and-arrays, each with a generated expression (type-directed, depth <= 2) x 0..12 inputs built from 1..3 base records (so keys repeat and tie; variants differ in a tag field; some top-level scalars) x three argument orders (relative order of the --select and --sort-by options kept). Oracle: (1) the three argument orders give byte-identical results; (2) the rows equal the reference pipeline (split -> filter -> select -> unique -> sort -> skip/take -> group|merge after only-objects) with expressions evaluated by the reference evaluator; cases whose expressions hit a point the documentation leaves open are judged by (1) only. non-trivial = judged by the model, >= 2 stateful/structural stages and >= 3 inputs".into();
+    ctx.rule = "option subsets over --set (variables, macros), --split-by, --filter, 0..3 --select (with /name/ back-references), --unique, 0..3 --sort-by with directions, --skip 0..3, --take absent|0..6, --group-by | --merge, --only-objects-and-arrays, each with a generated expression (type-directed, depth <= 2) x 0..12 inputs built from 1..3 base records (so keys repeat and tie; variants differ in a tag field; some top-level scalars) x three argument orders (relative order of the --select and --sort-by options kept). Oracle: (1) the three argument orders give byte-identical results; (2) the rows equal the reference pipeline (split -> filter -> select -> unique -> sort -> skip/take -> group|merge after only-objects) with expressions evaluated by the reference evaluator; cases whose expressions hit a point the documentation leaves open are judged by (1) only. non-trivial = judged by the model, >= 2 stateful/structural stages and >= 3 inputs. C03.large: the same two oracles on 100..5000 rows (12000 thorough) derived from a seed (1..5 distinct sort keys, rows without the key, optional nested lists for --split-by, repeating rows under --unique), plain field expressions in every stage, limits around 1024 and around the row count; non-trivial additionally needs >= 1000 rows".into();
     ctx.assumptions = vec!["reference evaluator as in C04; rows compared as values (number spelling and object member order of synthesised records free)".into()];
     C03Pipeline.run(ctx);
+    C03Large.run(ctx);
 }
 
 pub fn checks() -> Vec<Box<dyn DynCheck>> {
-    vec![Box::new(C03Pipeline)]
+    vec![Box::new(C03Pipeline), Box::new(C03Large)]
 }
